@@ -1069,3 +1069,100 @@ def fold_method(recv, attr, args, kwargs, lineno):
         return [("ok", lift_value(getattr(recv.v, attr)(*a, **kw)))]
     except Exception as e:
         return [("exc", Exc(ORD, type(e).__name__, lineno))]
+
+
+# =====================================================================================================================
+# Module-level constants that are built by statements rather than written as one literal
+# =====================================================================================================================
+def module_constants(prog, mod):
+    """{name: Python value} for the module-level names whose final value the exact collections can compute from the
+    module's own top-level assignments (a dict comprehension over a tuple of names, `dict([...])`, a table completed
+    by `TABLE[k] = v` or `.update(...)`, `frozenset({...})`): the module body's simple statements interpreted in
+    order.  Names whose value is not fully concrete are left out (the caller treats them as lost)."""
+    memo = getattr(mod, "_module_constants", None)
+    if memo is not None:
+        return memo
+    from .paths import Interp, Domain, Env
+
+    class _ModuleDomain(ExactCollections, Domain):
+        async_enabled = False
+        subscript_may_raise = False
+        unpack_may_raise = False
+
+        def name_load(self, name, state, node=None):
+            return state.get(name) if state.has(name) else TOP
+
+        def attr_load(self, objval, node, state):
+            b = self.coll_attr(objval, node)
+            return b if b is not None else TOP
+
+        def make_set(self, items, node, state):
+            if all(isinstance(x, Const) for x in items):
+                return Const(frozenset(x.v for x in items))  # a display of constants: an immutable set value
+            return TOP
+
+        def call(self, node, fval, args, kwargs, state):
+            if isinstance(node.func, ast.Name) and node.func.id in ("frozenset", "set") and len(args) == 1 and not kwargs:
+                a = args[0]
+                if isinstance(a, Const) and isinstance(a.v, frozenset):
+                    return [("ok", a, state)]
+                seq = self._seq(a, state)
+                if seq is not None and all(isinstance(x, Const) for x in seq):
+                    return [("ok", Const(frozenset(x.v for x in seq)), state)]
+            r = self.coll_call(node, fval, args, kwargs, state)
+            return r if r is not None else [("ok", TOP, state)]
+
+    from .model import AnalysisError
+
+    stmts = [st for st in mod.tree.body if isinstance(st, (ast.Assign, ast.AugAssign)) or (isinstance(st, ast.AnnAssign) and st.value is not None) or (isinstance(st, ast.Expr) and isinstance(st.value, ast.Call) and isinstance(st.value.func, ast.Attribute) and isinstance(st.value.func.value, ast.Name))]
+    fn = ast.FunctionDef(name="<module>", args=ast.arguments(posonlyargs=[], args=[], vararg=None, kwonlyargs=[], kw_defaults=[], kwarg=None, defaults=[]), body=stmts, decorator_list=[], returns=None, lineno=1, col_offset=0)
+
+    class _F:
+        node = fn
+        module = mod
+        cls = None
+        name = qualname = "<module %s>" % getattr(mod, "rel", "?")
+        params = ()
+
+    out = {}
+    try:
+        dom = _ModuleDomain(prog, _F())
+        rets = Interp(dom, fn, prog).run(Env()).of("ret") if stmts else []
+    except AnalysisError:
+        rets = []
+    if len(rets) == 1:
+        s = rets[0][0]
+        for k in list(s.d):
+            if isinstance(k, str) and not k.startswith("#") and "." not in k:
+                try:
+                    out[k] = _to_python(s.get(k), s)
+                except NotConcrete:
+                    pass
+    mod._module_constants = out
+    return out
+
+
+def _to_python(v, state, depth=0):
+    if depth > 6:
+        raise NotConcrete(v)
+    if isinstance(v, Ref):
+        c = content(v, state)
+        if c is None:
+            raise NotConcrete(v)
+        kind = v.kind
+        if kind == "set":
+            return frozenset(_to_python(x, state, depth + 1) for x in (c.items if isinstance(c, TupleV) else ()))
+        if kind in ("dict",) or kind.startswith("ddict"):
+            if not isinstance(c, DictV):
+                raise NotConcrete(v)
+            return {_to_python(k, state, depth + 1): _to_python(x, state, depth + 1) for k, x in c.items}
+        if kind == "list" and isinstance(c, TupleV):
+            return [_to_python(x, state, depth + 1) for x in c.items]
+        raise NotConcrete(v)
+    if isinstance(v, Const):
+        return v.v
+    if isinstance(v, TupleV):
+        return tuple(_to_python(x, state, depth + 1) for x in v.items)
+    if isinstance(v, DictV):
+        return {_to_python(k, state, depth + 1): _to_python(x, state, depth + 1) for k, x in v.items}
+    raise NotConcrete(v)
